@@ -5,16 +5,18 @@
    repairs are applied, all false = the tree as it is).  S : sem is an ARBITRARY semantics of leaf calls,
    primitive operations, truth tests and unpacking. *)
 From Coq Require Import List Bool Arith.
-From CyVerif Require Import Model.M_EvalOrder Proof.P_EvalOrder.
+From CyVerif Require Import Model.M_CCallMap Model.M_EvalOrder Proof.P_CCallMap Proof.P_EvalOrder Proof.P_EvalOrderCC.
 Import ListNotations.
 
 (* every expression of the modelled language (and/or jump threading, not, conditional expressions,
    cascaded comparisons, calls, displays, subscripts, slices, attributes, f-strings as strict n-ary
-   nodes, method calls, min/max), evaluated for its value at any temp counter n in any machine state:
+   nodes, method calls, min/max, calls of C functions with keyword arguments), evaluated for its value at
+   any temp counter n in any machine state:
    the generated code runs to completion, leaves the variables alone, appends exactly the reference
    event trace and the reference sequence of leaf evaluations, puts the reference value into the
    result operand and preserves every temp below n.
-   Hypothesis eok: a min/max node needs fx_minmax, a method-call node needs fx_mcall (findings below). *)
+   Hypothesis eok: a min/max node needs fx_minmax, a method-call node needs fx_mcall, a C-call node needs
+   ccok (findings below; with the repairs ccok holds for every well-formed call, C20_ccall_repaired_covers_all). *)
 Theorem C20_expr_trace_eq : forall (S : sem) (F : flags) e n st, eok F e = true ->
   let '(code, ro, n') := gen F CVal e n in
   let r := eval S (mvars st) MVal e in
@@ -66,6 +68,88 @@ Theorem C20_cascaded_unpacking_refuted : exists s,
 Proof. exists w_cascade. split; [exact cascade_refuted_w | exact cascade_repaired_w]. Qed.
 Print Assumptions C20_cascaded_unpacking_refuted.
 
+
+(* ---- calls of compile-time-known C functions: keyword arguments mapped to declared positions ----
+   (ExprNodes.GeneralCallNode.map_to_simple_call_node; model Model/M_CCallMap.v)
+   The mapping itself, for every declaration (ndecl parameters), every well-formed call matching it
+   (npos positional arguments, keywords with declared indices names: all declared, none bound twice, no
+   gap) and every "simple" verdict of the compiler: unless a non-simple argument precedes the first temp
+   (tree as it is: the argument list is cut there; cc_keep = the repair), the SimpleCallNode receives the
+   arguments in the binding the call denotes (ref_slots), and the evaluation order - temps first, then the
+   arguments left in place - visits every argument exactly once (a duplicate-free list of all m call
+   positions) and the non-simple ones in CALL order. *)
+Theorem C20_ccall_mapping : forall cc_keep npos ndecl names simple,
+  cc_wf npos ndecl names = true ->
+  let m := npos + length names in
+  let k := npos + inorder_prefix ndecl npos names in
+  (cc_keep = true \/ (forall p, p < k -> simple p = true) \/ (forall p, k <= p < m -> simple p = true)) ->
+  let slots := ref_slots npos names ndecl 0 in
+  exists temps,
+    ccmap true cc_keep npos ndecl names simple = CMOk temps slots /\
+    filter (nonsimple simple) (cc_order temps slots) = filter (nonsimple simple) (seq 0 m) /\
+    NoDup (cc_order temps slots) /\
+    (forall p, In p (cc_order temps slots) <-> p < m) /\
+    (forall p, In p slots <-> p < m) /\ length slots = m.
+Proof. exact ccmap_ok. Qed.
+Print Assumptions C20_ccall_mapping.
+
+(* the code generated for a covered C call (any semantics, any argument expressions of the modelled
+   language, any temp counter and machine state): receiver, then every argument value in call order,
+   each exactly once (event trace and leaf sequence of the reference), the values passed to the declared
+   parameters the call binds them to *)
+Theorem C20_ccall_call_order : forall (S : sem) (F : flags) o nreq ndecl recv npos names es n st,
+  eok F (ECCall o nreq ndecl recv npos names es) = true ->
+  let '(code, ro, n') := gen F CVal (ECCall o nreq ndecl recv npos names es) n in
+  let rr := eval S (mvars st) MVal recv in
+  let rs := evals S (mvars st) es in
+  let p := opsem S o (rv rr :: map (fun q => nth q (map rv rs) VNone) (ref_slots npos names ndecl 0)) in
+  exists st', run S code st Normal = (st', Normal) /\ mvars st' = mvars st /\
+    trace st' = trace st ++ rev rr ++ flat_ev rs ++ snd p /\
+    leaflog st' = leaflog st ++ rlf rr ++ flat_lf rs /\
+    getop st' ro = fst p /\ (forall t, t < n -> temps st' t = temps st t).
+Proof. exact ccall_call_order. Qed.
+Print Assumptions C20_ccall_call_order.
+
+(* with the three proposed repairs (and the temp-sorting step) the side condition ccok is just
+   well-formedness: every declaration, every call matching it *)
+Theorem C20_ccall_repaired_covers_all : forall F nreq ndecl recv npos names es,
+  fx_ccsimple F = true -> fx_cckeep F = true -> fx_ccrecv F = true -> cc_sorted F = true ->
+  length es = npos + length names -> cc_wf npos ndecl names = true -> nreq <= npos + length names ->
+  ccok F nreq ndecl recv npos names es = true.
+Proof. exact ccok_repaired. Qed.
+Print Assumptions C20_ccall_repaired_covers_all.
+
+(* the temp-sorting step is necessary: without it (temps chained in declaration order)
+   cf(c=T(1), b=T(2), a=T(3)) evaluates 3, 2, 1 *)
+Theorem C20_ccall_unsorted_refuted : exists s,
+  trace_of cc_seeded s <> sev (ref_run s) /\ leaflog (fst (run_stmt cc_seeded s)) = [3; 2; 1] /\
+  trace_of repaired s = sev (ref_run s) /\ trace_of cc_asis s = sev (ref_run s).
+Proof. exists w_cc_reversed. exact cc_seeded_refuted_w. Qed.
+Print Assumptions C20_ccall_unsorted_refuted.
+
+(* findings in the tree as it is (witnesses replayed on the compiled code by props/C20.py) *)
+(* is_simple() is asked before type analysis: cf(c=x.a, b=T(1), a=T(2)) looks x.a up last *)
+Theorem C20_ccall_simple_refuted : exists s,
+  trace_of cc_asis s <> sev (ref_run s) /\ trace_of repaired s = sev (ref_run s).
+Proof. exists w_cc_attr. exact cc_simple_refuted_w. Qed.
+Print Assumptions C20_ccall_simple_refuted.
+
+(* a non-simple argument before the first temp cuts the argument list: co(T(1), c=T(2), b=T(3)) calls
+   co(T1) (the evaluated values are dropped); with required parameters the call is rejected *)
+Theorem C20_ccall_cut_refuted : exists s s',
+  trace_of cc_asis s <> sev (ref_run s) /\ stmt_rejected cc_asis s = false /\
+  trace_of repaired s = sev (ref_run s) /\
+  stmt_rejected cc_asis s' = true /\ stmt_rejected repaired s' = false /\
+  trace_of repaired s' = sev (ref_run s').
+Proof. exists w_cc_cut, w_cc_cut_rejected. exact cc_cut_refuted_w. Qed.
+Print Assumptions C20_ccall_cut_refuted.
+
+(* the receiver of a C method call is evaluated after the keyword temps *)
+Theorem C20_ccall_receiver_refuted : exists s,
+  trace_of cc_asis s <> sev (ref_run s) /\ trace_of repaired s = sev (ref_run s).
+Proof. exists w_cc_recv. exact cc_recv_refuted_w. Qed.
+Print Assumptions C20_ccall_receiver_refuted.
+
 (* ConstantFolding rewrites  not (a [not] in b <cascade>)  by flipping the first operator: not an equivalence *)
 Theorem C20_not_of_cascaded_in_refuted : exists a n ops rest,
   rv (eval std_sem init_vars MVal (ENot (ECmp a (OIn n :: ops) rest))) <>
@@ -76,5 +160,10 @@ Print Assumptions C20_not_of_cascaded_in_refuted.
 Example C20_nonvacuous :
   eok repaired (ECond (EOr (ENot (ELeaf 1 1)) (ELeaf 0 2))
                       (EMCall 7 (OLog 2) (ELeaf 0 7) [EMinMax (OLog 0) [ELeaf 0 8; ELeaf 1 9]]) (ELeaf 0 11)) = true
-  /\ trace_of repaired w_big = sev (ref_run w_big) /\ 10 <= length (trace_of repaired w_big).
-Proof. split; [reflexivity|]. split; [apply big_agrees | apply big_agrees]. Qed.
+  /\ trace_of repaired w_big = sev (ref_run w_big) /\ 10 <= length (trace_of repaired w_big)
+  /\ eok cc_asis w_cc_big = true
+  /\ trace_of cc_asis (SAssign [TS (TName rvar)] w_cc_big) = sev (ref_run (SAssign [TS (TName rvar)] w_cc_big)).
+Proof.
+  split; [reflexivity|]. split; [apply big_agrees|]. split; [apply big_agrees|].
+  split; apply cc_big_covered.
+Qed.
